@@ -103,6 +103,17 @@ Definition attr_of (v : val) (a : string) : val :=
   | _ => VUndef
   end.
 
+(* canonical spelling of a call with constant arguments: name(a,b,k=v) with True/False/None, integers and strings as written *)
+Definition const_repr (e : expr) : string :=
+  match e with
+  | EBool true => "True" | EBool false => "False" | ENone => "None"
+  | EStr s => ("'" ++ s ++ "'")%string
+  | EInt z => z_to_str z
+  | _ => "?"
+  end.
+Definition call_key (n : string) (args : list expr) (kwargs : list (string * expr)) : string :=
+  (n ++ "(" ++ join "," (map const_repr args ++ map (fun kv => (fst kv ++ "=" ++ const_repr (snd kv))%string) kwargs) ++ ")")%string.
+
 Section Eval.
   Variable g : gencfg.
 
@@ -180,7 +191,13 @@ Section Eval.
         if String.eqb name "defined" then VBool (match v with VUndef => false | _ => true end)
         else if String.eqb name "none" then VBool (match v with VNone => true | _ => false end)
         else VUndef
-    | ECall f args kwargs => VUndef
+    | ECall f args kwargs =>
+        (* a method call with constant arguments on an object: its result is supplied by the environment under the key
+           "name(args)" (the correspondence harness evaluates the call on the real object); macro calls are not evaluated *)
+        match f with
+        | EAttr o n => attr_of (eval st o) (call_key n args kwargs)
+        | _ => VUndef
+        end
     | EListLit l => VList (evals l)
     end.
 
